@@ -42,9 +42,10 @@ STATE_CODE = {"not_started": 0, "in_progress": 1, "completed": 2, "placeholder_c
 ACTION_CODE = {"continue": 0, "placeholder": 1, "create": 2, "existing": 3}
 TERMINAL = {"completed", "placeholder_cycle", "placeholder_depth", "placeholder_self_ref"}
 CASE_BUDGET_S = 60
-LONG_CHAIN = 600
-LONG_ALLOF = 260
-LONG_ARR = 300
+LONG_CHAIN = 400
+LONG_ALLOF = 220
+LONG_ARR = 220
+SHORT_CHAIN0 = 30
 
 
 # =====================================================================================================
@@ -159,6 +160,7 @@ def install() -> None:
 
     def w_enter(name, ctx):  # type: ignore[no-untyped-def]
         before = [k for k in ctx.parsed_schemas]
+        before_states = [k for k in ctx.schema_states]
         allow = bool(ctx.allow_self_reference)
         try:
             r = orig_enter(name, ctx)
@@ -167,12 +169,14 @@ def install() -> None:
             raise
         cur, par, nest, py = TR.locate()
         TR.events.append({"k": "enter", "name": name, "allow": allow, "action": r.action.value, "frame": cur,
-                          "parent": par, "nest": nest, "py": py, "before": before, "snap": TR.snap(ctx),
+                          "parent": par, "nest": nest, "py": py, "before": before, "before_states": before_states,
+                          "snap": TR.snap(ctx),
                           "ctx": TR.ctx_id(ctx), "exc": None})
         return r
 
     def w_exit(name, ctx):  # type: ignore[no-untyped-def]
         before = [k for k in ctx.parsed_schemas]
+        before_states = [k for k in ctx.schema_states]
         et = sys.exc_info()[0]
         try:
             orig_exit(name, ctx)
@@ -181,7 +185,8 @@ def install() -> None:
             raise
         cur, par, nest, py = TR.locate()
         TR.events.append({"k": "exit", "name": name, "frame": cur, "parent": par, "nest": nest, "py": py,
-                          "before": before, "snap": TR.snap(ctx), "ctx": TR.ctx_id(ctx),
+                          "before": before, "before_states": before_states, "snap": TR.snap(ctx),
+                          "ctx": TR.ctx_id(ctx),
                           "exc": et.__name__ if et is not None else None})
 
     ucd.unified_enter_schema, ucd.unified_exit_schema = w_enter, w_exit
@@ -298,6 +303,7 @@ def rebuild(events: list[dict]) -> dict:
     used: list[dict] = []
     truncated = False
     prev_parsed: list[str] = []
+    prev_states: list[str] = []
     top_ends: list[dict] = []
     fell: list[str] = []
 
@@ -339,9 +345,12 @@ def rebuild(events: list[dict]) -> dict:
         elif e["ctx"] != ctx0:
             grammar.append("more than one ParsingContext used in one load")
             break
-        regs = [["reg", k] for k in e["before"] if k not in prev_parsed] + \
-               [["unreg", k] for k in prev_parsed if k not in e["before"]]
+        pp, bb = set(prev_parsed), set(e["before"])
+        regs = [["reg", k] for k in e["before"] if k not in pp] + [["unreg", k] for k in prev_parsed if k not in bb]
         prev_parsed = e["snap"]["parsed"]
+        bs = set(e["before_states"])
+        pops = [k for k in prev_states if k not in bs]      # schema_states.pop(k) executed outside enter/exit
+        prev_states = [k for k, _ in e["snap"]["states"]]
         if e["k"] == "enter":
             if not pop_to(e["parent"]):
                 grammar.append(f"enter of {e['name']!r} from a _parse_schema frame that never entered")
@@ -358,6 +367,13 @@ def rebuild(events: list[dict]) -> dict:
                     "nexits": 0, "parent_node": parent, "last_snap": e["snap"]}
             target = parent["body"] if parent is not None else tops
             target.extend(regs)
+            if pops:
+                # the only place that drops tracker state is build_schemas' re-parse of a depth placeholder:
+                # `schema_states.pop(n)` immediately followed by the top-level `_parse_schema(n, ...)`
+                if parent is None and pops == [e["name"]]:
+                    node["fresh"] = True
+                else:
+                    grammar.append(f"tracker state of {pops} dropped outside a top-level re-parse (before enter of {e['name']!r})")
             target.append(node)
             stack.append(node)
         else:
@@ -368,6 +384,8 @@ def rebuild(events: list[dict]) -> dict:
             node = stack[-1]
             if e["name"] != node["name"]:
                 grammar.append(f"frame entered as {node['name']!r} exits as {e['name']!r}")
+            if pops:
+                grammar.append(f"tracker state of {pops} dropped inside frame {node['name']!r}")
             if node["nexits"] == 0 and node["action"] != "continue" and (node["body"] or regs):
                 grammar.append(f"frame {node['name']!r} ({node['action']}): work between enter and balancing exit")
             node["body"].extend(regs)
@@ -386,7 +404,7 @@ def strip(item: Any, limit: int = 8) -> Any:
     if isinstance(item, list):
         return item
     return {"name": item["name"], "allow": item["allow"], "action": item["action"], "nexits": item["nexits"],
-            "body": [strip(x, limit - 1) for x in item["body"]] if limit > 0 else "(cut)"}
+            "fresh": bool(item.get("fresh")), "body": [strip(x, limit - 1) for x in item["body"]] if limit > 0 else "(cut)"}
 
 
 # ---------------------------------------------------------------- the property's own oracle
@@ -413,6 +431,13 @@ def oracle(case: dict, res: dict, rb: dict) -> list[str]:
             if te["stack"] or te["depth"] != 0:
                 fails.append(f"tracker not at rest after top-level {te['name']!r}: stack={te['stack']} depth={te['depth']}")
                 break
+    # (1') recursion is cut at the configured limit: no NAMED schema is told to continue parsing at a counted depth
+    #      beyond the limit (it must be answered with a placeholder there)
+    limit = case["max_depth"] if case.get("max_depth") is not None else 150
+    for e in rb["used"]:
+        if e["k"] == "enter" and e["name"] and e["action"] == "continue" and e["snap"]["depth"] > limit:
+            fails.append(f"schema {e['name']!r} continues parsing at counted depth {e['snap']['depth']} > limit {limit}")
+            break
     # (2') the trace is an instance of the enter / early-return / finally skeleton
     for g in rb["grammar"][:3]:
         fails.append("unbalanced enter/exit: " + g)
@@ -461,6 +486,13 @@ def c_item(x: Any) -> str:
     return "".join(out)
 
 
+def c_top(x: Any) -> str:
+    from framework import cstr
+    if isinstance(x, dict) and x.get("fresh"):
+        return f"(Fresh {cstr(x['name'])} {c_item(x)})"
+    return f"(Plain {c_item(x)})"
+
+
 def hsnap(s: dict) -> tuple[int, int]:
     """the checksum of Corr/C08.v: a += x + 1; b += a over code points with separators"""
     a, b = 7, 0
@@ -498,7 +530,7 @@ def c_case(case: dict, rb: dict) -> str:
     from framework import cbool, clist, cpair, cstr
     md = case["max_depth"] if case.get("max_depth") is not None else 150
     obs = clist(clist(str(v) for v in enc_event(e)) for e in rb["used"])
-    inp = f"{{| i_md := {md}; i_tops := {clist(c_item(t) for t in rb['tops'])}; i_trunc := {cbool(rb['truncated'])} |}}"
+    inp = f"{{| i_md := {md}; i_tops := {clist(c_top(t) for t in rb['tops'])}; i_trunc := {cbool(rb['truncated'])} |}}"
     return f"({inp}, ({cbool(rb['truncated'])}, {obs}))"
 
 
@@ -648,21 +680,30 @@ def depth_cases(thorough: bool) -> list[dict]:
                 for nk in ("oneof", "allof", "map", "anyof"):
                     out.append({"kind": f"nest-{nk}-md{md}", "max_depth": md, "op": None,
                                 "schemas": {"Deep": nest(nk, k, R("Leaf")), "Leaf": {"type": "object", "properties": {"v": dict(PRIM)}}}})
-    # limits 0 and 1 with reference chains of NAMED schemas long enough to exhaust the interpreter stack if they
-    # were not cut (>= 600 schemas; cut at counted depth 1-2 on the unchanged tree, so the traces are short)
+    # limit 1 with reference chains of NAMED schemas long enough to exhaust the interpreter stack if they were not
+    # cut (~3 frames per level: 334 levels overflow; cut at counted depth 2; build_schemas re-parses every placeholder from depth 0, linear in the length)
+    names = [f"S{i}" for i in range(LONG_CHAIN + 1)]
+    out.append(graph_case(names, [(i, i + 1, "ref") for i in range(LONG_CHAIN)], md=1, kind="longchain-ref-md1"))
+    # array items: ~6 Python frames per level (~170 levels overflow when uncut) and three times the events
+    out.append(graph_case(names[:LONG_ARR + 1], [(i, i + 1, "arr") for i in range(LONG_ARR)], md=1,
+                          kind="longchain-arr-md1"))
+    # allOf parents: ~6 Python frames per level (~170 levels overflow when uncut); the third-party spec validator run by load_ir is quadratic in the
+    # length of an allOf chain (600 -> 45 s)
+    out.append(graph_case(names[:LONG_ALLOF + 1], [(i, i + 1, "ref") for i in range(LONG_ALLOF)], md=1,
+                          shapes={i: "allof" for i in range(LONG_ALLOF)}, kind="longchain-allof-md1"))
+    # limit 0: nothing can be parsed (every schema is answered with a depth placeholder at depth 1) and build_schemas
+    # repeats len(schemas) passes over all of them: quadratic by construction, so the chains are short; an uncut
+    # recursion shows as a named schema continuing beyond the limit (oracle clause 1')
+    for n, ek, sh in ((SHORT_CHAIN0, "ref", {}), (SHORT_CHAIN0 // 2, "arr", {}),
+                      (SHORT_CHAIN0 // 2, "ref", {i: "allof" for i in range(SHORT_CHAIN0 // 2)})):
+        out.append(graph_case(names[:n + 1], [(i, i + 1, ek) for i in range(n)], md=0, shapes=sh,
+                              kind=f"chain-{'allof' if sh else ek}-md0"))
     for md in (0, 1):
-        names = [f"S{i}" for i in range(LONG_CHAIN + 1)]
-        out.append(graph_case(names, [(i, i + 1, "ref") for i in range(LONG_CHAIN)], md=md, kind=f"longchain-ref-md{md}"))
-        # array items: ~6 Python frames per level (300 levels overflow when uncut) and three times the events
-        out.append(graph_case(names[:LONG_ARR + 1], [(i, i + 1, "arr") for i in range(LONG_ARR)], md=md,
-                              kind=f"longchain-arr-md{md}"))
-        # allOf parents: ~6 Python frames per level, so 260 levels already overflow the stack when uncut; the
-        # third-party spec validator run by load_ir is quadratic in the length of an allOf chain (600 -> 45 s)
-        out.append(graph_case(names[:LONG_ALLOF + 1], [(i, i + 1, "ref") for i in range(LONG_ALLOF)], md=md,
-                              shapes={i: "allof" for i in range(LONG_ALLOF)}, kind=f"longchain-allof-md{md}"))
-        # small graphs under the degenerate limits
         out.append(graph_case(["A", "B", "C"], [(0, 1, "ref"), (1, 2, "arr"), (2, 0, "oneof"), (1, 1, "inl")], md=md,
                               kind=f"small-md{md}"))
+    # default limit, chains longer than the limit: the schema at the limit is re-parsed from depth 0
+    for n in (200, 320):
+        out.append(graph_case(names[:n + 1], [(i, i + 1, "ref") for i in range(n)], md=None, kind="chain-ref-default"))
     # anonymous nesting well beyond the default limit but within the interpreter's stack
     for nk, k in (("oneof", 160), ("map", 200)):
         out.append({"kind": f"nest-{nk}-{k}", "max_depth": None, "op": None,
